@@ -6,7 +6,8 @@ comment (never containing the EOCD magic).  The block is described by
   layout   which ids appear, in which order, and which of them carries the enumerated signers (role A) or a fixed,
            different signer list (roles B, C): none / empty block / v2 / v3 / v3.1 without v3 / unknown id / v2+v3 / v3+v3.1
            in both role assignments and both orders / v2+v3+v3.1 / unknown before and after v2 / v2 twice (A first, B first) /
-           v3 twice / v3.1 twice / v2,v3,v2 / unknown twice / v3,v3.1,v3.1
+           v3 twice / v3.1 twice / v2,v3,v2 / unknown twice / v3,v3.1,v3.1; and 22 layouts with an EMPTY-valued pair (12 bytes)
+           of every id {v2, v3, v3.1, unknown, duplicate of an earlier id} in first / middle / LAST position
   signers  0..3 signers, each {digest lengths (0..3 of {0,1,32,64}), signature lengths (same), certificates (0..2 of the
            fixed test certificates), additional attributes (none / one / two), public key (rsa / ec / dsa / empty),
            v3 SDK bounds (6 boundary tuples, signed-data and signer level independent)}
@@ -19,7 +20,8 @@ Oracle = the generating model: is_signed_v2/v3/v31 true exactly when a block wit
 has_duplicate_apk_signature_ids() (asked first on a fresh object, and again after the flags) <=> some id occurs twice;
 parse_v2_signing_block / parse_v3_signing_block(v31) signers: digests, certificates, attributes, signatures, public key and
 (v3) the four SDK bounds of the FIRST block with that id; get_certificates_der_* / get_public_keys_der_* /
-get_certificates_* / get_public_keys_* the corresponding flattened lists; absent scheme -> empty lists.
+get_certificates_* / get_public_keys_* the corresponding flattened lists; absent scheme -> empty lists.  For a scheme whose
+first block has an empty value only the flags (and that no exception escapes the flag / duplicate queries) are judged.
 """
 import itertools
 
@@ -27,7 +29,7 @@ from mc.core import Acc
 
 PROPERTY = "C33"
 LEVEL = "exploration"
-RULE = ("APK Signing Blocks over 21 id layouts x 0..3 signers x {digest, signature length tuples of size <= 3 over {0,1,32,64}} x "
+RULE = ("APK Signing Blocks over 43 id layouts (21 with filled values + 22 with an empty-valued pair first/middle/last) x 0..3 signers x {digest, signature length tuples of size <= 3 over {0,1,32,64}} x "
         "certificate lists x attribute blobs x public keys x v3 SDK boundary tuples, bounded as four sub-products (two dimensions "
         "at full alphabet, the rest at base); written by gen/apkgen into a zip before the central directory; distinct by "
         "construction; non-trivial = the block holds a v2/v3/v3.1 id")
@@ -72,6 +74,17 @@ LAYOUTS = {
     "unk+unk": [("unk", None), ("unk2", None)],
     "v3A+v31A+v31B": [("v3", "A"), ("v31", "A"), ("v31", "B")],
     "v3B+v3A+v31C": [("v3", "B"), ("v3", "A"), ("v31", "C")],
+    # pairs with an EMPTY value (role E: the pair is 12 bytes, uint64 size = 4) in first / middle / last position, for every id and
+    # as duplicate of an earlier id.  Only the flags are judged for a scheme whose FIRST block is empty.
+    "v2E": [("v2", "E")], "v3E": [("v3", "E")], "v31E": [("v31", "E")],
+    "v2A+v3E": [("v2", "A"), ("v3", "E")], "v3A+v31E": [("v3", "A"), ("v31", "E")], "v2A+v31E": [("v2", "A"), ("v31", "E")],
+    "v3A+v2E": [("v3", "A"), ("v2", "E")], "v2A+unkE": [("v2", "A"), ("unk", None)],
+    "v2A+v2E": [("v2", "A"), ("v2", "E")], "v3A+v3E": [("v3", "A"), ("v3", "E")], "v31A+v31E": [("v31", "A"), ("v31", "E")],
+    "unk9+unkE": [("unk2", None), ("unk", None)], "v2A+v3A+v2E": [("v2", "A"), ("v3", "A"), ("v2", "E")],
+    "v2E+v3A": [("v2", "E"), ("v3", "A")], "v3E+v2A": [("v3", "E"), ("v2", "A")], "v31E+v3A": [("v31", "E"), ("v3", "A")],
+    "v2A+v3E+unk9": [("v2", "A"), ("v3", "E"), ("unk2", None)], "v2A+v31E+v3A": [("v2", "A"), ("v31", "E"), ("v3", "A")],
+    "v3A+v2E+v31A": [("v3", "A"), ("v2", "E"), ("v31", "A")], "v2A+v2E+v3A": [("v2", "A"), ("v2", "E"), ("v3", "A")],
+    "v2A+unkE+v3A": [("v2", "A"), ("unk", None), ("v3", "A")], "unkE+unk9+v2A": [("unk", None), ("unk2", None), ("v2", "A")],
 }
 LAYOUT_ORDER = list(LAYOUTS)
 
@@ -182,6 +195,9 @@ def build(case):
     for tag, role in layout:
         if role is None:
             val = b"" if tag == "unk" else b"\x00" * 9
+        elif role == "E":
+            val = b""
+            model["blocks"][tag].append(None)
         else:
             signers = materialise(role, shapes if role == "A" else (ROLE_B if role == "B" else ROLE_C))
             val = G.v2_value(signers) if tag == "v2" else G.v3_value(signers)
@@ -262,6 +278,8 @@ def judge(case):
 
     for s in ("v2", "v3", "v31"):
         blocks = model["blocks"][s]
+        if blocks and blocks[0] is None:
+            continue            # first block of this id has an empty value: what its signers are is not settled by the statement
         exp = blocks[0] if blocks else []
         label = {"v2": "v2", "v3": "v3", "v31": "v3.1"}[s]
         if s == "v31" and blocks and not model["blocks"]["v3"]:
@@ -284,7 +302,7 @@ def judge(case):
                         % (tag, s, type(e).__name__, e)))
             continue
         if len(got) != len(exp):
-            if len(blocks) > 1 and len(got) == len(blocks[1]):
+            if len(blocks) > 1 and blocks[1] is not None and len(got) == len(blocks[1]):
                 why = "signers-of-a-later-block"
             else:
                 why = "signers-empty" if not got else ("signers-count:%d" % len(exp))
@@ -298,7 +316,7 @@ def judge(case):
                 d = ("exception", type(ex).__name__)
             if d:
                 later = ""
-                if len(blocks) > 1 and i < len(blocks[1]):
+                if len(blocks) > 1 and blocks[1] is not None and i < len(blocks[1]):
                     try:
                         if first_diff(g, blocks[1][i], s != "v2") is None:
                             later = ":value-of-a-later-block"
